@@ -1,9 +1,112 @@
 import Driver.Util
-/-! Suite `silkapi` (line protocol, DESIGN.md §4): stub registered in Driver/Main.lean; the owner fills in `handle`. -/
+import OpusModel.SilkApi
+/-! Suite `silkapi` (line protocol, DESIGN.md §4) — control layer of the SILK decoder (C01 extension `SilkApi`).
+
+    silkapi dec <state> <args> <orc ints> <f0 ints> <f0 samples> <f1 ints> <f1 samples> <#rs> <ret0> <out0> <ret1> <out1>
+        => <ret> <nSamplesOut> <prevPitchLag> st=<state> ev=<inner calls> out=<hash> hi=<nSamplesOut*nChannelsAPI>
+           (ABORT when a celt_assert of the modelled code fails; BOUNDS <acc> when a recorded access leaves its array)
+    silkapi init <state>  => 0 <state>
+    silkapi mstolr <stereo state (6)> <p0,p1,fs_kHz,N> <x1 samples> <x2 samples>  => <stereo state> <x1 hex> <x2 hex>
+    <state> = <chan0>;<chan1>;<stereo>;<nChannelsAPI,nChannelsInternal,prev_decode_only_middle>, <chan> = 25 integers
+    in the order of `pr_chan` (harness/c01_silkapi.c); samples are `x` + 4 hex digits per int16. -/
 namespace Driver.SuiteSilkApi
+open Opus.SilkApi
+
+def parseChan (s : String) : Option Chan := do
+  match ← parseIntList s with
+  | [a0, a1, a2, a3, a4, a5, a6, a7, a8, a9, a10, a11, a12, a13, a14, a15, v0, v1, v2, lf, l0, l1, l2, ri, ro] =>
+    some { fs_kHz := a0, fs_API_hz := a1, nb_subfr := a2, frame_length := a3, subfr_length := a4, ltp_mem_length := a5,
+           LPC_order := a6, first_frame_after_reset := a7, lagPrev := a8, LastGainIndex := a9, prevSignalType := a10,
+           lagLowBits := a11, pitchContour := a12, nlsfCb := a13, nFramesDecoded := a14, nFramesPerPacket := a15,
+           vad := [v0, v1, v2], lbrrFlag := lf, lbrr := [l0, l1, l2], rsIn := ri, rsOut := ro }
+  | _ => none
+
+def chanStr (c : Chan) : String :=
+  intList ([c.fs_kHz, c.fs_API_hz, c.nb_subfr, c.frame_length, c.subfr_length, c.ltp_mem_length, c.LPC_order,
+            c.first_frame_after_reset, c.lagPrev, c.LastGainIndex, c.prevSignalType, c.lagLowBits, c.pitchContour, c.nlsfCb,
+            c.nFramesDecoded, c.nFramesPerPacket] ++ c.vad ++ [c.lbrrFlag] ++ c.lbrr ++ [c.rsIn, c.rsOut])
+
+def parseStereo (s : String) : Option Stereo := do
+  match ← parseIntList s with
+  | [a, b, c, d, e, f] => some { pred_prev0 := a, pred_prev1 := b, sMid0 := c, sMid1 := d, sSide0 := e, sSide1 := f }
+  | _ => none
+
+def stereoStr (s : Stereo) : String := intList [s.pred_prev0, s.pred_prev1, s.sMid0, s.sMid1, s.sSide0, s.sSide1]
+
+def parseDec (s : String) : Option Dec := do
+  match s.splitOn ";" with
+  | [c0, c1, st, top] =>
+    let c0 ← parseChan c0
+    let c1 ← parseChan c1
+    let st ← parseStereo st
+    match ← parseIntList top with
+    | [a, b, c] => some { ch0 := c0, ch1 := c1, st := st, nChannelsAPI := a, nChannelsInternal := b, prev_decode_only_middle := c }
+    | _ => none
+  | _ => none
+
+def decStr (d : Dec) : String :=
+  chanStr d.ch0 ++ ";" ++ chanStr d.ch1 ++ ";" ++ stereoStr d.st ++ ";" ++ intList [d.nChannelsAPI, d.nChannelsInternal, d.prev_decode_only_middle]
+
+def parseArgs (s : String) : Option Args := do
+  match ← parseIntList s with
+  | [a, b, c, d, e, f, g] => some { nChannelsAPI := a, nChannelsInternal := b, API_sampleRate := c, internalSampleRate := d,
+                                     payloadSize_ms := e, lostFlag := f, newPacketFlag := g }
+  | _ => none
+
+/-- `x` + 4 hex digits per int16 sample -/
+def parseHex16 (s : String) : Option (List Int) := do
+  let bs ← parseHex s
+  let rec go : List Nat → List Int → Option (List Int)
+    | [], acc => some acc.reverse
+    | [_], _ => none
+    | h :: l :: rest, acc =>
+      let v : Int := (h * 256 + l : Nat)
+      go rest ((if v ≥ 32768 then v - 65536 else v) :: acc)
+  go bs []
+
+def hex16Str (l : List Int) : String :=
+  toHex (l.flatMap fun v => let u := ((v % 65536 + 65536) % 65536).toNat; [u / 256, u % 256])
+
+def parseFrame (ints samples : String) : Option FrameOrc := do
+  let s ← parseHex16 samples
+  match ← parseIntList ints with
+  | [r, a, b, c, d] => some { ret := r, samples := s, lagPrev := a, LastGainIndex := b, prevSignalType := c, first_frame_after_reset := d }
+  | _ => none
+
+def evStr (l : List Ev) : String :=
+  if l.isEmpty then "-" else String.join (l.map fun e => e.1 ++ ":" ++ intList e.2 ++ ";")
+
+def accStr (a : Acc) : String := s!"{a.buf}[{a.lo}+{a.stride}*{a.n})/{a.cap}"
+
+def runStr (a : Args) (r : Run) : String :=
+  if !r.ok then "ABORT" else
+  match r.ac.find? (fun x => !decide x.InBounds) with
+  | some x => "BOUNDS " ++ accStr x
+  | none =>
+    match r.err with
+    | some e => s!"{e} 0 0 st={decStr r.d} ev=- out=7 hi=0"
+    | none => s!"{r.ret} {r.nSamplesOut} {r.prevPitchLag} st={decStr r.d} ev={evStr r.ev} out={hashList r.out} hi={r.nSamplesOut * a.nChannelsAPI}"
 
 def handle (args : List String) : String :=
   match args with
+  | ["dec", st, ar, oi, f0i, f0s, f1i, f1s, _nrs, r0, h0, r1, h1] =>
+    match parseDec st, parseArgs ar, parseIntList oi, parseFrame f0i f0s, parseFrame f1i f1s, r0.toInt?, parseHex16 h0, r1.toInt?, parseHex16 h1 with
+    | some d, some a, some [v00, v01, v02, v10, v11, v12, lf0, lf1, ls0, ls1, p0, p1, mid], some f0, some f1, some r0, some h0, some r1, some h1 =>
+      let o : Orc := { vad0 := [v00, v01, v02], vad1 := [v10, v11, v12], lbrrFlag0 := lf0, lbrrFlag1 := lf1, lbrrSym0 := ls0,
+                       lbrrSym1 := ls1, pred0 := p0, pred1 := p1, midOnly := mid, frame0 := f0, frame1 := f1,
+                       rs := [(r0, h0), (r1, h1)] }
+      runStr a (silkDecode d a o)
+    | _, _, _, _, _, _, _, _, _ => "bad-op"
+  | ["init", st] =>
+    match parseDec st with
+    | some d => "0 " ++ decStr (initDecoder d)
+    | none => "bad-op"
+  | ["mstolr", st, pa, x1, x2] =>
+    match parseStereo st, parseIntList pa, parseHex16 x1, parseHex16 x2 with
+    | some st, some [p0, p1, fs, n], some x1, some x2 =>
+      let r := msToLR st x1 x2 p0 p1 fs n
+      stereoStr r.st ++ " " ++ hex16Str r.x1 ++ " " ++ hex16Str r.x2
+    | _, _, _, _ => "bad-op"
   | _ => "bad-op"
 
 end Driver.SuiteSilkApi
